@@ -25,6 +25,19 @@ class CompMixin:
         if len(gen) != 1 or gen[0].ifs:
             raise Unsupported(f"{self.where(e)}: dict comprehension shape")
         out = []
+        shape = self.dictcomp_copy_shape(e)
+        if shape is not None:
+            handled = []
+            for s, dv in self.ev(gen[0].iter.func.value, st):
+                if s.status != "run":
+                    handled.append((s, None))
+                elif dv.k in ("ref", "val") and dv.cls == "dict":
+                    handled.append((s, self.dict_copy(s, dv, deep1=(shape == "deep1"))))
+                else:
+                    handled = None
+                    break
+            if handled is not None:
+                return handled
         for s, itv in self.ev(gen[0].iter, st):
             if s.status != "run":
                 out.append((s, None))
@@ -54,6 +67,80 @@ class CompMixin:
                             s2.env.pop(n, None)
                     out.append((s2, self.new_dict(s2, acc)))
         return out
+
+    @staticmethod
+    def dictcomp_copy_shape(e):
+        """{k: v for k, v in X.items()} -> 'shallow';  {k: dict(v) for k, v in X.items()} / {k: v.copy() ...} -> 'deep1';  else None"""
+        g = e.generators[0]
+        it, tg = g.iter, g.target
+        if not (isinstance(it, ast.Call) and isinstance(it.func, ast.Attribute) and it.func.attr == "items" and not it.args and not it.keywords):
+            return None
+        if not (isinstance(tg, ast.Tuple) and len(tg.elts) == 2 and all(isinstance(x, ast.Name) for x in tg.elts)):
+            return None
+        kn, vn = tg.elts[0].id, tg.elts[1].id
+        if not (isinstance(e.key, ast.Name) and e.key.id == kn):
+            return None
+        v = e.value
+        if isinstance(v, ast.Name) and v.id == vn:
+            return "shallow"
+        if isinstance(v, ast.Call) and isinstance(v.func, ast.Name) and v.func.id == "dict" and len(v.args) == 1 and not v.keywords \
+                and isinstance(v.args[0], ast.Name) and v.args[0].id == vn:
+            return "deep1"
+        if isinstance(v, ast.Call) and isinstance(v.func, ast.Attribute) and v.func.attr == "copy" and not v.args \
+                and isinstance(v.func.value, ast.Name) and v.func.value.id == vn:
+            return "deep1"
+        return None
+
+    def dict_copy(self, st, dv, deep1):
+        """a new dict with the keys of dv (same order); values are the same objects (shallow) or, for deep1, *new* dicts — one per key,
+        pairwise distinct, allocated by this comprehension — whose contents equal those of the corresponding inner dict at copy time.
+        Unboundedly many allocations: the allocation pointer moves to a fresh larger value; the per-key facts are lazy universals over keys."""
+        r0 = self.as_ref(dv, st)
+        if not deep1:
+            r = st.alloc("dict")
+            for c in ("dict.keys", "dict.map", "dict.has"):
+                st.H[c] = z3.Store(st.comp(c), r, st.read(c, r0))
+            return vref(r, cls="dict", elem=dv.elem)
+        keys0, map0, has0 = st.read("dict.keys", r0), st.read("dict.map", r0), st.read("dict.has", r0)
+        lo = st.alloc_ptr()
+        # the inner copies: every dict component is havocked at the locations allocated from here on; older objects keep their contents
+        pre = {c: st.comp(c) for c in ("dict.keys", "dict.map", "dict.has")}
+        cond = lambda ref, lo=lo: ref < lo       # noqa: E731
+        cond.fresh_only = True
+        for c in ("dict.keys", "dict.map", "dict.has"):
+            st.havoc_comp_except(c, cond, self.component_sort(c))
+        st.bump_alloc()
+        hi = st.alloc_ptr()
+        r = st.alloc("dict")
+        inner = z3.Function(fresh("copy_of", Int).decl().name(), Val, Int)
+        keyof = z3.Function(fresh("copied_key", Int).decl().name(), Int, Val)
+        newmap = fresh("copied_map", z3.ArraySort(Val, Val))
+        st.H["dict.keys"] = z3.Store(st.comp("dict.keys"), r, keys0)
+        st.H["dict.has"] = z3.Store(st.comp("dict.has"), r, has0)
+        st.H["dict.map"] = z3.Store(st.comp("dict.map"), r, newmap)
+        post = {c: st.comp(c) for c in ("dict.keys", "dict.map", "dict.has")}
+        cls_arr = st.comp("cls")
+        from .state import clsid
+
+        def inst(k, inner=inner, keyof=keyof, newmap=newmap, lo=lo, hi=hi, has0=has0, map0=map0, pre=pre, post=post, cls_arr=cls_arr):
+            c = inner(k)
+            src = Val.r(z3.Select(map0, k))
+            facts = [z3.Select(newmap, k) == Val.R(c), c >= lo,
+                     z3.Implies(z3.Select(has0, k),
+                                z3.And(c < hi, keyof(c) == k, z3.Select(cls_arr, c) == clsid("dict"),
+                                       *[z3.Select(post[x], c) == z3.Select(pre[x], src) for x in ("dict.keys", "dict.map", "dict.has")]))]
+            return z3.And(*facts)
+        st.kuniv.append(inst)
+        # every value of the new dict is an object allocated by this comprehension (used by frame reasoning without naming a key)
+        fv = self.fresh_values_pred()
+        st.assume(fv(newmap))
+        st.assume(lo >= __import__("pyvc.state", fromlist=["ALLOC0"]).ALLOC0)
+        return vref(r, cls="dict", elem=dv.elem)
+
+    def fresh_values_pred(self):
+        """FRESHVALS(map): every reference stored in the map was allocated after the verified function was entered (>= ALLOC0)"""
+        from .state import ALLOC0
+        return self.rules.forall_pred_array("FRESHVALS", lambda v: z3.Or(z3.Not(Val.is_R(v)), Val.r(v) >= ALLOC0), z3.ArraySort(Val, Val))
 
     # ---- element access -----------------------------------------------------------------------------------------------
     def comp_parts(self, c):
